@@ -179,7 +179,7 @@ CHECKS["C01"] = (
     "generated term by conversion); read in a MathComp field these are Ainv = Lambda^-1 + M^T W M, B = W^-1 + M Lambda M^T, Binv = W - W M Y "
     "M^T W, chi^2 = r^T Binv r, so by Woodbury the returned value is -1/2 (r^T B^-1 r + sum ln(2 pi |U_ii|)) with B^-1 a two-sided inverse "
     "(C01_marginal_is_gaussian), given that the inversion oracle returns a right inverse; over Coq's reals (C01_real_value, Props/C01r.v, libc log = ln) "
-    "that value IS ln N(y | M mu, B) = -1/2 (r^T B^-1 r + n ln 2 pi + ln det B) when the LU diagonal multiplies to det B > 0. Assumed: the LU oracle's diagonal gives ln|det B| "
+    "that value IS ln N(y | M mu, B) = -1/2 (r^T B^-1 r + n ln 2 pi + ln det B) when the LU diagonal multiplies to det B > 0. C01_C05_real_every_schedule composes this with the generated batch_tasks and the schedule model of C05: for every n_batches, pool and complete schedule the cache-file path returns these log-densities row by row in library order. Assumed: the LU oracle's diagonal gives ln|det B| "
     "(LAPACK contract), oracles succeed, IEEE rounding. Per run Coq additionally certifies every generated input end to end (exact rational "
     "equality of chi^2, |det B|, B, B^-1, a, Ainv with the closed form from a junk initial state; certified-interval equality of ll) and compares "
     "the generated model with the rebuilt binary (ll through TheJoker.marginal_ln_likelihood incl. mixed-jitter batches, a / Ainv buffers).",
